@@ -1,7 +1,9 @@
 import propcfg
 HOOK_COMMITS = []
-NOTES = ("Every check: lake build of the property's theorem module + #print axioms audit, cargo rebuild of the harness "
-         "against /repo's working tree, correspondence run, specification oracle. See DESIGN.md.")
+NOTES = ("Every check: regeneration of the Lean tables / functions that are extracted from /repo's source (tools/extract_*.py, "
+         "DESIGN.md 11.8), lake build of the property's theorem module + #print axioms audit (allowed: propext, Classical.choice, "
+         "Quot.sound), cargo rebuild of the harness against /repo's working tree, correspondence run (model vs implementation on the "
+         "same protocol lines), specification oracle on the implementation's own output, known-findings matching. See DESIGN.md.")
 PENDING = "check under construction in this build phase (model and correspondence not committed yet); see DESIGN.md section 5"
 CHECKS = propcfg.MANIFESTS
 ALL = ["C%02d" % i for i in range(1, 21)]
